@@ -1,0 +1,20 @@
+//! Thin wrappers exposing crate-internal `Type` relations to the external
+//! runtime-verification harness. Only compiled with the `verif_hooks` feature.
+use super::Type;
+
+impl Type {
+    #[doc(hidden)]
+    pub fn verif_is_scalar_only_subtype(&self, maybe_subtype: &Self) -> bool {
+        self.is_scalar_only_subtype(maybe_subtype)
+    }
+
+    #[doc(hidden)]
+    pub fn verif_equal_ignoring_nullability(&self, other: &Self) -> bool {
+        self.equal_ignoring_nullability(other)
+    }
+
+    #[doc(hidden)]
+    pub fn verif_is_orderable(&self) -> bool {
+        self.is_orderable()
+    }
+}
